@@ -1,4 +1,5 @@
 """R-LOCK (C14): lock discipline on the single RwLock."""
+import re
 from cfg import PG
 from cg import op_local, peel
 from core import Finding, RuleResult
@@ -181,4 +182,16 @@ def run(ctx):
                 if any(m in s for m in ("Cell<", "RefCell<", "UnsafeCell<", "Atomic", "Mutex<")) and "OnceLock" not in s:
                     res.fail(Finding("R-LOCK.4", "R-LOCK.4/interior-mut/%s.%s" % (a["path"], fld["name"]),
                                      "field %s.%s has interior mutability (%s): state could change under a read guard" % (a["path"], fld["name"], s)), nontrivial=False)
+    # R-LOCK.5: the lock is only ever taken by the blocking read()/write().  try_read / try_write / is_poisoned answer
+    # according to what OTHER threads are doing at that instant; an assertion, an error or a branch fed by them makes
+    # the outcome of a read-only call depend on the schedule (C14: "none panics, each result equals the state
+    # before or after some whole stream operation").
+    for f in ctx.fx.fns.values():
+        for c in cg.calls[f.path]:
+            if c.kind != "call":
+                continue
+            nm = c.name
+            if re.search(r"RwLock(::)?<T>::(try_read|try_write|is_poisoned|clear_poison)$|Mutex(::)?<T>::try_lock$", nm):
+                res.fail(Finding("R-LOCK.5", "R-LOCK.5/%s/%s" % (f.path, nm.split("::")[-1]),
+                                 "%s probes the shared lock with %s: its answer depends on whether another thread holds the lock at that instant, so whatever is decided from it (an assertion, an error, a different path) differs between schedules" % (f.path.split("::")[-1], nm.split("::")[-1]), f, c.term["span"]))
     return res
